@@ -41,6 +41,11 @@ def check(run, prog, tier):
     rule_C(run, prog)
     rule_D(run, prog, sites)
     rule_E(run, prog, sites)
+    run.rule("C14-F", "no basis protection is left on the system's Hamiltonian by the tensor builders (the thermal "
+                      "builders read it inside eigenbasis_of and rely on it being transformed)", minimum=5)
+    from . import c15
+    from ..report import RuleProxy
+    c15.rule_E4(RuleProxy(run, "C14-F"), prog)
 
 
 def _defs(func, name, before=None):
